@@ -5,6 +5,7 @@ package classifier
 import (
 	"bytes"
 	"sort"
+	"strings"
 )
 
 func init() {
@@ -15,6 +16,7 @@ func init() {
 	vxRegister("H04cQ", H04cQ)
 	vxRegister("H04cT", H04cT)
 	vxRegister("H04w", H04w)
+	vxRegister("H04trace", H04trace)
 	vxRegister("H04h", H04h)
 	vxRegister("H04wQ", H04wQ)
 }
@@ -183,6 +185,50 @@ func H04h() {
 	c.Normalize(x)
 	r2 := c.Match(x)
 	vxSameResults("history-match", r1, r2)
+	vxCover("end")
+}
+
+// H04trace: results are the same with every trace phase enabled, also for documents of long words and
+// inputs with long runs of missing or foreign words (long diff texts), at a low threshold.
+func H04trace() {
+	var K []string
+	for i := 0; i < 12; i++ {
+		K = append(K, strings.Repeat(string(rune('a'+i)), 12))
+	}
+	t := []float64{0.3, 0.5}[vxChoice(2)]
+	build := func() *Classifier {
+		c := NewClassifier(t)
+		c.AddContent("License", "Long", "v.txt", []byte(strings.Join(K, " ")))
+		return c
+	}
+	p, k := vxChoice(12), vxChoice(9)
+	kind := vxChoice(2)
+	var X []string
+	for i, w := range K {
+		if i >= p && i < p+k {
+			if kind == 1 {
+				X = append(X, "zzzzzzzzzzzz")
+			}
+			continue
+		}
+		X = append(X, w)
+	}
+	in := []byte("qqq\n" + strings.Join(X, " ") + "\nrrr\n")
+	plain := build().Match(in)
+	c := build()
+	c.SetTraceConfiguration(&TraceConfiguration{TracePhases: "*", TraceLicenses: "*", Tracer: func(string, ...interface{}) {}})
+	traced := c.Match(in)
+	vxSameResults("tracing-long-diffs", plain, traced)
+	words := append(append([]string{"qqq"}, X...), "rrr")
+	for _, m := range traced.Matches {
+		if m.EndTokenIndex < len(words) && m.StartTokenIndex >= 0 {
+			L := vxLevenshtein(words[m.StartTokenIndex:m.EndTokenIndex+1], K)
+			vxAssert("confidence-not-overstated-traced", m.Confidence <= 1.0-float64(L)/float64(len(K)))
+		}
+	}
+	if len(plain.Matches) > 0 {
+		vxCover("has-match")
+	}
 	vxCover("end")
 }
 
